@@ -33,20 +33,20 @@ func init() {
 }
 
 type c15Cfg struct {
-	Method  string
-	N       int
-	Vals    [][]float64 // 2 considered alternatives x n
-	W       []float64
-	Ratio   float64
-	Min     int // -1 absent
-	Max     int // -1 absent
-	Order   string
-	Extra   bool
-	Cost    bool
-	Seed    int64
-	Script  float64 // <0: real generator
-	Bias    string  // criteriaOmission | preferenceReversal
-	Ranges  bool
+	Method string
+	N      int
+	Vals   [][]float64 // 2 considered alternatives x n
+	W      []float64
+	Ratio  float64
+	Min    int // -1 absent
+	Max    int // -1 absent
+	Order  string
+	Extra  bool
+	Cost   bool
+	Seed   int64
+	Script float64 // <0: real generator
+	Bias   string  // criteriaOmission | preferenceReversal
+	Ranges bool
 }
 
 // methodParams builds methodParameters for the criteria ids with weights w.
